@@ -129,7 +129,28 @@ class AstToSqlVisitor(visitor.NodeVisitor):
         right = self.visit(node.right)
         op = self.visit(node.op)
 
+        # In case of an arithmetic subexpression that binds less tightly, wrap
+        # it in parentheses. Operators are left-associative, so on the right
+        # side this also goes for a subexpression of equal precedence, e.g.:
+        # x - (y + z)
+        precedence = self._binop_precedence(node)
+        if (
+            isinstance(node.left, ast.BinOp)
+            and self._binop_precedence(node.left) < precedence
+        ):
+            left = f"({left})"
+        if (
+            isinstance(node.right, ast.BinOp)
+            and self._binop_precedence(node.right) <= precedence
+        ):
+            right = f"({right})"
+
         return f"{left} {op} {right}"
+
+    @staticmethod
+    def _binop_precedence(node: ast.BinOp) -> int:
+        ":meta private:"
+        return 1 if isinstance(node.op, (ast.Add, ast.Sub)) else 2
 
     def visit_Eq(self, node: ast.Eq) -> str:
         ":meta private:"
